@@ -72,7 +72,7 @@ def field_name(draw, sub):
 
 @st.composite
 def obj_inside(draw, sub):
-    if draw(st.integers(0, 5)) == 0:
+    if draw(st.integers(0, 3)) == 0:
         return {"k": "comp",
                 "locals1": draw(st.lists(bind(sub), max_size=1)),
                 "name": draw(sub), "plus": draw(st.booleans()), "body": draw(sub),
